@@ -52,7 +52,8 @@ Explain ==
                              /\ Conform(CutW(W, run.c, run.pc), NoRun)
                         ELSE /\ Line.act.k = W.S.n
                              /\ Conform(CutW(W, 0, 0), NoRun)
-    [] a = "wit" -> W.phase = "up" /\ ~run.busy /\ Line.act.v > W.clk /\ Conform(WitW(W, Line.act.v), run)
+    [] a = "wit" -> /\ W.phase = "up" /\ ~run.busy     \* Witness of an older time is a no-op
+                    /\ Conform(IF Line.act.v > W.clk THEN WitW(W, Line.act.v) ELSE W, run)
     [] a = "adv" -> W.phase = "up" /\ ~run.busy /\ Conform(AdvW(W, Line.act.d), run)
     [] OTHER -> FALSE
 
